@@ -16,11 +16,14 @@ Definition pst_of (B : nat) (c : cur) : pst :=
 Definition repr (data : list N) (c : cur) : Prop :=
   exists prefix, data = prefix ++ rev (tokrev c) ++ rest c /\ length prefix = pre c.
 
+(* a K-byte vector load at `bytes.as_ref().as_ptr()` *)
+Definition load_q (K : nat) : Q (nat * nat) := qbind i_as_ref (fun r => q_raw_parts (fst r) K).
+
 Ltac q_unfold :=
   cbv beta iota delta [qbind qret qget qput qfault q_deref q_add q_sub q_usub q_raw_parts pm_limit pm_base pm_data
                        ps_start ps_end ps_cursor pst_of
                        i_slice_from_ptr_range i_pos i_peek i_peek_ahead i_len i_is_empty i_commit i_advance i_bump
-                       i_as_ref i_slice i_slice_skip i_advance_and_commit i_next i_new i_peek_n].
+                       i_as_ref i_slice i_slice_skip i_advance_and_commit i_next i_new i_peek_n load_q].
 
 Ltac cmp :=
   match goal with
@@ -113,9 +116,9 @@ Proof.
 Qed.
 
 (* pos() and len() *)
-Lemma tie_iter_pos c : pre c = 0 -> i_pos m (pst_of B c) = PDone (length (tokrev c)) (pst_of B c).
+Lemma tie_iter_pos c : i_pos m (pst_of B c) = PDone (length (tokrev c)) (pst_of B c).
 Proof.
-  intros H0. destruct c as [pc t r]. cbn [pre] in H0. subst pc. unfold m. q_unfold. cbn [pre tokrev rest].
+  destruct c as [pc t r]. unfold m. q_unfold. cbn [pre tokrev rest].
   cmp. f_equal. lia.
 Qed.
 Lemma tie_iter_len c : i_len m (pst_of B c) = PDone (length (rest c)) (pst_of B c).
@@ -244,6 +247,40 @@ Proof.
     replace (B + pc + length t - B) with (length (p ++ rev t)) by (rewrite app_length, rev_length; lia).
     rewrite Hd, app_assoc, skipn_app, skipn_all, Nat.sub_diag. reflexivity.
   - cmp. eexists. split; [reflexivity|]. cbn [option_map]. rewrite take_none' by exact Hgt. reflexivity.
+Qed.
+
+(* as_ref(): (cursor, end - cursor); the bytes it denotes are the unread rest *)
+Lemma tie_iter_as_ref c : repr data c ->
+  i_as_ref m (pst_of B c) = PDone (B + apos c, length (rest c)) (pst_of B c) /\
+  sl_bytes (read_slice m (B + apos c, length (rest c))) = rest c.
+Proof.
+  intros H. pose proof (repr_len c H) as HL. destruct H as (p & Hd & Hp).
+  destruct c as [pc t r]. unfold apos. cbn [pre tokrev rest] in *. unfold m. q_unfold. cbn [pre tokrev rest].
+  cmp. cmp. cmp. cbn [andb fst snd].
+  replace (B + pc + length t + length r - (B + pc + length t)) with (length r) by lia.
+  split; [f_equal; f_equal; lia|].
+  unfold read_slice. cbn [fst snd pm_base pm_data sl_bytes].
+  replace (B + (length t + pc) - B) with (length (p ++ rev t)) by (rewrite app_length, rev_length; lia).
+  rewrite Hd, app_assoc, skipn_app, skipn_all, Nat.sub_diag. cbn [skipn app]. apply firstn_all.
+Qed.
+
+(* a K-byte load at as_ref().as_ptr(): inside the buffer exactly when K bytes are left *)
+Lemma tie_iter_load_block K c : repr data c ->
+  match take K (rest c) with
+  | Some bs => exists pl, load_q K m (pst_of B c) = PDone pl (pst_of B c) /\
+                          sl_bytes (read_slice m pl) = bs
+  | None => exists f, load_q K m (pst_of B c) = PFault f
+  end.
+Proof.
+  intros H. pose proof (repr_len c H) as HL. destruct H as (p & Hd & Hp).
+  destruct c as [pc t r]. cbn [pre tokrev rest] in *. unfold m. q_unfold. cbn [pre tokrev rest].
+  cmp. cmp. cmp. cbn [andb fst snd].
+  destruct (Nat.le_gt_cases K (length r)) as [Hle|Hgt].
+  - rewrite take_spec' by exact Hle. cmp. cmp. cbn [andb]. eexists. split; [reflexivity|].
+    unfold read_slice. cbn [fst snd pm_base pm_data sl_bytes].
+    replace (B + pc + length t - B) with (length (p ++ rev t)) by (rewrite app_length, rev_length; lia).
+    rewrite Hd, app_assoc, skipn_app, skipn_all, Nat.sub_diag. reflexivity.
+  - rewrite take_none' by exact Hgt. cmp. cmp. cbn [andb]. eauto.
 Qed.
 
 End Tie.
